@@ -52,7 +52,7 @@ def build_measurements(case):
 
 class C18(Prop):
     id = 'C18'
-    level = 'exploration'
+    level = 'other'
     technique = ('run-time contract on the real estimator for every available marginal oracle; loss recomputed by the harness; '
                  'disjoint-clique optimum cross-checked against exact estimation (bounded)')
     explanation = ('Bounded tier only (labelled bounded, never counted as proved). LocalInference(domain, marginal_oracle in {convex, approx, pairwise}, '
@@ -83,9 +83,6 @@ class C18(Prop):
                    'metric L2, numpy backend, no structural zeros, warm_start=False']
     quick_budget_s = 80
     thorough_budget_s = 560
-
-    def deductive(self, tier):
-        return []
 
     # ------------------------------------------------------------------ cases
     def cases(self, tier, seed):
